@@ -107,6 +107,22 @@ fn main() {
             };
             std::process::exit(engine::run_check(c.as_ref(), tier, seed, runs));
         }
+        "digest" => {
+            // vsim digest <runs> [workers] [only-id]
+            let n: u64 = args.get(2).and_then(|s| s.parse().ok()).unwrap_or(64);
+            let w: usize = args.get(3).and_then(|s| s.parse().ok()).unwrap_or(16);
+            let seed: u64 = std::env::var("VERIF_SEED").ok().and_then(|s| s.parse().ok()).unwrap_or(DEFAULT_SEED);
+            for c in &checks {
+                if let Some(only) = args.get(4) {
+                    if c.id() != only {
+                        continue;
+                    }
+                }
+                let nn = n + c.fixed_cases().min(64);
+                let (d, per) = engine::digest(c.as_ref(), seed, nn, w);
+                println!("{} runs={} digest={:016x} first={:016x} last={:016x}", c.id(), nn, d, per.first().copied().unwrap_or(0), per.last().copied().unwrap_or(0));
+            }
+        }
         "crash-child" => {
             std::process::exit(iosim::crash_child(&args[2..]));
         }
